@@ -359,7 +359,7 @@ mod proofs {
     }
 
     // WINDOW_UPDATE on stream 0 with one stream waiting: bounded (queue of <= 1 waiting stream).
-    // @harness id=prio_recv_connection_window_update props=C02,C09,C16,C06,C08 kind=bounded bound=waiting_streams<=1 tier=thorough fn=Prioritize::recv_connection_window_update,Prioritize::assign_connection_capacity
+    // @harness id=prio_recv_connection_window_update props=C02,C09,C16,C06,C08 kind=bounded bound=waiting_streams<=1 tier=attempt fn=Prioritize::recv_connection_window_update,Prioritize::assign_connection_capacity
     #[kani::proof]
     #[kani::unwind(4)]
     fn prio_recv_connection_window_update() {
@@ -576,7 +576,7 @@ mod proofs {
         send_data_case(false);
     }
 
-    // @harness id=prio_send_data_eos props=C01,C04,C02,C16,C13,C08 kind=complete tier=thorough fn=Prioritize::send_data timeout=3000
+    // @harness id=prio_send_data_eos props=C01,C04,C02,C16,C13,C08 kind=complete tier=attempt fn=Prioritize::send_data timeout=3000
     #[kani::proof]
     #[kani::unwind(3)]
     fn prio_send_data_eos() {
@@ -720,7 +720,7 @@ mod proofs {
     //   len > 0  ==> both windows were > 0 ; at a non-positive window only zero-length DATA leaves
     //   END_STREAM(emitted) <=> END_STREAM(queued) && whole frame emitted; Prioritized remembers the original
     //   buffered / requested drop by len.
-    // @harness id=prio_pop_frame_data props=C02,C01,C16,C04,C08 kind=bounded bound=streams=1,queued_frames=1 tier=thorough fn=Prioritize::pop_frame timeout=5400
+    // @harness id=prio_pop_frame_data props=C02,C01,C16,C04,C08 kind=bounded bound=streams=1,queued_frames=1 tier=attempt fn=Prioritize::pop_frame timeout=5400
     #[kani::proof]
     #[kani::unwind(3)]
     fn prio_pop_frame_data() {
